@@ -23,7 +23,8 @@ hence factory(**stanza.as_dict()) rebuilds an equal object; (c) select_conflicts
 of its two result lists; (d) InventoryWorkingTree.set_conflicts / conflicts write and read the same control file through
 to_stanzas / from_stanzas.
 Added while testing against seeded changes: Also: set_conflicts / set_merge_modified cannot return without writing
-their control file; resolve() treats only `paths is None` as 'all conflicts'.
+their control file; resolve() treats only `paths is None` as 'all conflicts'; every function that reads X.conflicts() and
+writes X.set_conflicts() holds one write lock on X across both (rmw-under-one-lock).
 Does not decide: rio's escaping of arbitrary unicode (bzrformats).
 """
 
@@ -211,8 +212,31 @@ def run(ctx):
     ctx.require(bool(alls) and bool(sel), f"{CG}:resolve: the all/selected branches were not found")
     ctx.check("selection-respected", f"{CG}:resolve", not (set(alls) & gr.assume({"paths is None": False, "paths is not None": True}).reachable_from_entry()), "every conflict is processed only when paths is None; any list — also an empty one — goes through select_conflicts", message="resolve() treats a non-None selection (e.g. the empty list) as 'all conflicts': resolving nothing resolves everything and removes the helper files")
     ctx.check("selection-respected", f"{CG}:resolve", all(any(norm(a) == "paths" for c in gr.nodes[i].calls() if call_attr(c) == "select_conflicts" for a in c.args) for i in sel), "select_conflicts receives the caller's paths")
+    # ---- read-modify-write of the stored conflicts happens under one write lock --------------------------------
+    # every function (non-test) that reads X.conflicts() and writes X.set_conflicts(...) does both inside
+    # `with X.lock_tree_write()/lock_write()`, or after it entered such a lock for the rest of the function: between an
+    # unlocked read and the write another writer's stored conflicts are overwritten without any error
+    n_rmw = 0
+    for rel in repo.python_files():
+        if not rel.startswith("breezy/") or "/tests/" in rel or "set_conflicts" not in repo.text(rel):
+            continue
+        for q, fn in repo.module(rel).functions().items():
+            cs = [(call_recv(c), call_attr(c), c) for c in calls_in(fn) if call_attr(c) in ("conflicts", "set_conflicts")]
+            both = {x for x, a, _ in cs if a == "conflicts"} & {x for x, a, _ in cs if a == "set_conflicts"}
+            for recv in sorted(x for x in both if x):
+                n_rmw += 1
+                locks = (f"{recv}.lock_tree_write()", f"{recv}.lock_write()")
+                covered = set()
+                for w in ast.walk(fn):
+                    if isinstance(w, ast.With) and any(norm(i.context_expr) in locks for i in w.items):
+                        covered |= {id(x) for x in ast.walk(w)}
+                entered = [c.lineno for c in calls_in(fn) if (call_attr(c) == "enter_context" and c.args and norm(c.args[0]) in locks) or (norm(c) in locks and id(c) not in covered and not any(isinstance(w, ast.With) and any(i.context_expr is c for i in w.items) for w in ast.walk(fn)))]
+                loose = [f"L{c.lineno}:{norm(c)[:40]}" for x, a, c in cs if x == recv and id(c) not in covered and not any(l_ < c.lineno for l_ in entered)]
+                ctx.check("rmw-under-one-lock", f"{rel}:{q}", not loose, f"{q} reads and rewrites {recv}'s conflicts under one write lock", construct="; ".join(loose), message=f"{q} reads {recv}.conflicts() and writes {recv}.set_conflicts() without holding one write lock across both ({'; '.join(loose)}): conflicts another writer stores in between are overwritten — a stored list is not read back")
+    ctx.require(n_rmw >= 3, f"only {n_rmw} read-modify-write sites of the stored conflicts found (hand-confirmed: 4)")
 
 MUTANTS = [
+    Mutant("add_conflicts reads and writes without the tree lock", WT, "        with self.lock_tree_write():\n            conflict_set = set(self.conflicts())\n            conflict_set.update(set(new_conflicts))\n            self.set_conflicts(\n                sorted(conflict_set, key=_mod_bzr_conflicts.Conflict.sort_key)\n            )\n", "        conflict_set = set(self.conflicts())\n        conflict_set.update(set(new_conflicts))\n        self.set_conflicts(\n            sorted(conflict_set, key=_mod_bzr_conflicts.Conflict.sort_key)\n        )\n", expect="rmw-under-one-lock"),
     Mutant("empty selection means all", "breezy/conflicts.py", "        if paths is None:\n            new_conflicts = []", "        if not paths:\n            new_conflicts = []", expect="selection-respected"),
     Mutant("set_conflicts skips the write when the list compares equal", WT, "        with self.lock_tree_write():\n            self._put_rio(\"conflicts\", conflict_list.to_stanzas(), CONFLICT_HEADER_1)", "        with self.lock_tree_write():\n            if self._transport.has(\"conflicts\") and conflict_list == self.conflicts():\n                return\n            self._put_rio(\"conflicts\", conflict_list.to_stanzas(), CONFLICT_HEADER_1)", expect="persistence-unconditional"),
     Mutant("action no longer written", CF, "        s = Conflict.as_stanza(self)\n        s.add(\"action\", self.action)\n        return s", "        s = Conflict.as_stanza(self)\n        return s", expect=["required-are-written", "compared-attrs-persisted"]),
